@@ -152,7 +152,7 @@ def run(worker, nworkers, wt):
         if rc != 0:
             verdict = "does-not-import"
         else:
-            for c in m["checks"]:
+            for c in m["checks"][:2]:
                 env = dict(os.environ, VERIF_REPO=wt, VERIF_SCRATCH="/tmp/mut_scratch_%d" % worker, TQDM_DISABLE="1")
                 p = subprocess.run("./check %s --tier quick" % c, shell=True, cwd=V, env=env, stdout=subprocess.PIPE, stderr=subprocess.STDOUT, text=True)
                 if p.returncode == 1 and "VIOLATION property=" in p.stdout:
